@@ -162,6 +162,8 @@ type Interp struct {
 	signs       []*signApp
 	verifies    []*verifyApp
 	nverify     int
+	seals       []*sealApp
+	opens       []*openApp
 	unwindOverride int
 	mapOrder    bool
 	gs        []*G
